@@ -6,8 +6,8 @@
       (serialization.py:522-617)                                   → `verdictOf`, `effOf`, `fieldsV`;
     * the trusted branch of `deserialize_structure_internal` (serialization.py:776-820):
       `get_flat_resolved_mapper` + key translation (`flatMap`, `remapDoc`), `_get_enum_mapping`
-      (`enumPre`, `classCrash`), `_remap_input` (`tVal`, `tFields`, `dropsF`),
-      `_extract_non_nonefield_from_optional` (`tHead`: always `fields[0]`)
+      (`enumPre`), `_remap_input` (`tVal`, `tFields`),
+      `_extract_non_nonefield_from_optional` (`optPick`, `tHead`)
       and `Structure.from_trusted_data` of a mapping (`tFields` keeps only declared fields, in
       field order)                                                 → `deserializeTrusted`;
     * `Structure.from_trusted_data(None, **kw)` / `trust_supplied_values()` + constructor
@@ -131,9 +131,16 @@ def refEff : Verdict → FEff
   | .no => .reject
   | .lvl _ => .nested
 
+/-- an optional field is as simple as its non-None option, and makes the class `nested` -/
+def optEff : FEff → FEff
+  | .raises => .raises
+  | .reject => .reject
+  | _ => .nested
+
 mutual
-/-- the body of the `for v in fields` loop for one field -/
-def effOf (Mp : MapEnv) : FieldDecl → FEff
+/-- the body of the `for v in fields` loop for one field; `opt` = the replacement of an optional
+    `AnyOf` by its non-None option may still happen (it happens once, at the top of the body) -/
+def effOf (Mp : MapEnv) (opt : Bool) : FieldDecl → FEff
   | .integer _ => .keep
   | .string _ _ _ => .keep
   | .float _ => .keep
@@ -143,13 +150,15 @@ def effOf (Mp : MapEnv) : FieldDecl → FEff
   | .enumLit _ => .nested               -- a SerializableField
   | .enumCls _ _ => .nested
   | .anyOf fs =>
-    -- the optional branch never looks at the non-None option
-    if isOptAnyOf fs then .nested else if fs.all isValidCls then .keep else .reject
+    if opt && isOptAnyOf fs then optEff (effOpt Mp fs)
+    else if fs.all isValidCls then .keep else .reject
   | .seqOf .list item _ =>
-    if isValidCls item then .keep else if isClassRef item then effOf Mp item else .reject
+    if isEnumDecl item then .nested            -- Serializable items
+    else if isValidCls item then .keep
+    else if isClassRef item then effOf Mp false item else .reject
   | .seqOf .deque _ _ => .reject
   | .setOf _ item _ =>
-    if isValidCls item then .nested else if isClassRef item then effOf Mp item else .reject
+    if isValidCls item then .nested else if isClassRef item then effOf Mp false item else .reject
   | .struct c fields _ =>
     if c.inline then .reject
     else refEff (if (Mp c.name).isComplex then .raises else fieldsV Mp fields .flat)
@@ -166,10 +175,20 @@ def effOf (Mp : MapEnv) : FieldDecl → FEff
   | .anything => .reject
 termination_by structural f => f
 
+/-- `_extract_non_nonefield_from_optional`: `fields[0]` if `fields[1]` is `NoneField`, else
+    `fields[1]` -/
+def effOpt (Mp : MapEnv) : List FieldDecl → FEff
+  | [] => .reject
+  | x :: rest =>
+    (match rest with
+      | [y] => if isNoneF y then effOf Mp false x else effOf Mp false y
+      | _ => .reject)
+termination_by structural fs => fs
+
 def fieldsV (Mp : MapEnv) : List (String × FieldDecl) → Lvl → Verdict
   | [], l => .lvl l
   | (_, f) :: rest, l =>
-    match effOf Mp f with
+    match effOf Mp true f with
     | .raises => .raises
     | .reject => .no
     | .nested => fieldsV Mp rest .nested
@@ -191,30 +210,31 @@ def eligible (Mp : MapEnv) (cls : FieldDecl) : Bool :=
 
 /-! ### the trusted branch -/
 
-/-- `_get_enum_mapping(cls)` raises AttributeError for a class that has an `AnyOf` field without a
-    `NoneField` option (`getattr(v, "_is_optional")` has no default) or an optional `AnyOf` whose
-    first option is an `Enum` of literals (no `_enum_class`) -/
-def crashField : FieldDecl → Bool
-  | .anyOf fs => !fs.any isNoneF || (match fs with | .enumLit _ :: _ => true | _ => false)
-  | _ => false
-
-def classCrash (fields : List (String × FieldDecl)) : Bool := fields.any fun p => crashField p.2
-
 /-- `mapping[doc[k]]` = `EnumClass[name]` -/
 def enumByName (cls : String) (names : List String) (v : PyVal) : R PyVal :=
   match v with
   | .str n => if names.contains n then .ok (.enumv cls n) else .error (.other "KeyError")
   | _ => .error (.other "KeyError")
 
-/-- the enum-mapping step for the entry of field `f`: an enum-class field, or an `AnyOf` with a
-    `NoneField` option whose FIRST option is an enum-class field, has a truthy value replaced by
-    the member of that name -/
-def enumPre (f : FieldDecl) (v : PyVal) : R PyVal :=
+/-- the non-None option of an optional `AnyOf` (`fields[0]` if `fields[1]` is `NoneField`, else
+    `fields[1]`) -/
+def optPick (fs : List FieldDecl) : FieldDecl :=
+  match fs with
+  | [x, y] => if isNoneF y then x else y
+  | _ => .noneF
+
+def enumPreD (f : FieldDecl) (v : PyVal) : R PyVal :=
   match f with
   | .enumCls cls names => if truthy v then enumByName cls names v else .ok v
-  | .anyOf (.enumCls cls names :: rest) =>
-    if rest.any isNoneF && truthy v then enumByName cls names v else .ok v
   | _ => .ok v
+
+/-- the enum-mapping step (`_get_enum_mapping`) for the entry of field `f`: an enum-class field,
+    or an optional `AnyOf` whose non-None option is one, has a truthy value replaced by the
+    member of that name -/
+def enumPre (f : FieldDecl) (v : PyVal) : R PyVal :=
+  match f with
+  | .anyOf fs => if isOptAnyOf fs then enumPreD (optPick fs) v else .ok v
+  | g => enumPreD g v
 
 /-- `Enum.deserialize(x)` -/
 def enumDeser (item : FieldDecl) (x : PyVal) : R PyVal :=
@@ -222,11 +242,6 @@ def enumDeser (item : FieldDecl) (x : PyVal) : R PyVal :=
   | .enumCls cls names => dEnumCls cls names x
   | .enumLit vals => dValidated (vEnumLit vals x) x
   | _ => .ok x
-
-/-- the Set branch's first test: `isinstance(items, (Integer, String, Float, Boolean, NoneField))` -/
-def isSetScalar : FieldDecl → Bool
-  | .integer _ | .string _ _ _ | .float _ | .boolean | .noneF => true
-  | _ => false
 
 /-- `set(v)` / `{… for x in v}` of a JSON array -/
 def pySet (v : PyVal) (g : List PyVal → R (List PyVal)) : R PyVal :=
@@ -241,22 +256,10 @@ def pyList (v : PyVal) (g : List PyVal → R (List PyVal)) : R PyVal :=
   | .list xs => bindE (g xs) fun ys => .ok (.list ys)
   | _ => .error (.other "outside-model:non-list")
 
-/-- `_remap_input` assigns nothing for a Set field whose items are neither of the five scalar
-    classes, nor a SerializableField, nor a ClassReference: the entry is silently dropped -/
-def dropsDirect : FieldDecl → Bool
-  | .setOf _ item _ => !(isSetScalar item || isEnumDecl item || isClassRef item)
-  | .setAny _ _ => true
-  | _ => false
-
-def dropsF : FieldDecl → Bool
-  | .anyOf fs =>
-    if isOptAnyOf fs then (match fs with | f :: _ => dropsDirect f | [] => false) else false
-  | f => dropsDirect f
-
 /-- the nested `deserialize_structure_internal(…, direct_trusted_mapping=True,
     simple_structure_verified=…)` for a dict document: key translation, `_get_enum_mapping`,
     then the entries `k` computes, as `cls.from_trusted_data(mapping)` -/
-def tInst (m : TMapper) (cname : String) (crash : Bool) (names : List String) (v : PyVal)
+def tInst (m : TMapper) (cname : String) (names : List String) (v : PyVal)
     (k : List (String × PyVal) → R (List (String × PyVal))) : R PyVal :=
   match v with
   | .dict kvs => (match kwOfDict kvs with
@@ -264,7 +267,6 @@ def tInst (m : TMapper) (cname : String) (crash : Bool) (names : List String) (v
     | some doc =>
       -- (reachable only for a class the classifier never looked at: behind an Optional)
       if m.isList then .error (.other "AttributeError")
-      else if crash then .error (.other "AttributeError")
       else bindE (k (remapDoc m names doc)) fun attrs => .ok (.inst cname attrs))
   | _ => .error (.other "outside-model:non-dict")
 
@@ -275,19 +277,18 @@ def tVal (Mp : MapEnv) (opt : Bool) : FieldDecl → PyVal → R PyVal
   | .anyOf fs, v => if opt && isOptAnyOf fs then tHead Mp fs v else .ok v
   | .struct c fields _, v =>
     if c.inline then .ok v
-    else tInst (Mp c.name) c.name (classCrash fields) (fields.map (·.1)) v
+    else tInst (Mp c.name) c.name (fields.map (·.1)) v
           (fun doc => tFields Mp false c.ignoreNone doc fields)
   | .enumLit _, v => .ok v
   | .enumCls _ _, v => .ok v
   | .seqOf .list item _, v =>
     if isClassRef item then pyList v (mapE (tVal Mp false item))
-    else if isEnumDecl item then enumDeser item v      -- `items.deserialize(v)` on the WHOLE list
+    else if isEnumDecl item then pyList v (mapE (enumDeser item))    -- Serializable items, element by element
     else .ok v
   | .setOf _ item _, v =>
-    if isSetScalar item then pySet v (fun xs => .ok xs)
-    else if isEnumDecl item then pySet v (mapE (enumDeser item))
+    if isEnumDecl item then pySet v (mapE (enumDeser item))
     else if isClassRef item then pySet v (mapE (tVal Mp false item))
-    else .ok v                                          -- dropped (`dropsF`)
+    else pySet v (fun xs => .ok xs)                     -- every other admitted item type: `set(v)`
   | .integer _, v => .ok v
   | .number _, v => .ok v
   | .float _, v => .ok v
@@ -297,7 +298,7 @@ def tVal (Mp : MapEnv) (opt : Bool) : FieldDecl → PyVal → R PyVal
   | .seqOf .deque _ _, v => .ok v
   | .seqAny _ _, v => .ok v
   | .seqPos _ _ _ _, v => .ok v
-  | .setAny _ _, v => .ok v
+  | .setAny _ _, v => pySet v (fun xs => .ok xs)
   | .tupleOf _ _, v => .ok v
   | .tuplePos _ _, v => .ok v
   | .mapAny _, v => .ok v
@@ -308,10 +309,13 @@ def tVal (Mp : MapEnv) (opt : Bool) : FieldDecl → PyVal → R PyVal
   | .anything, v => .ok v
 termination_by structural f _ => f
 
-/-- `_extract_non_nonefield_from_optional`: `fields[0]` in both branches -/
+/-- through `_extract_non_nonefield_from_optional` -/
 def tHead (Mp : MapEnv) : List FieldDecl → PyVal → R PyVal
   | [], v => .ok v
-  | f :: _, v => tVal Mp false f v
+  | x :: rest, v =>
+    (match rest with
+      | [y] => if isNoneF y then tVal Mp false x v else tVal Mp false y v
+      | _ => .ok v)
 termination_by structural fs _ => fs
 
 /-- the attributes of the trusted instance, field by field: `raw` = the class is `not_nested`
@@ -327,7 +331,6 @@ def tFields (Mp : MapEnv) (raw ign : Bool) (doc : List (String × PyVal)) :
       if v.isNone then
         (if !raw && ign then tFields Mp raw ign doc rest
          else bindE (tFields Mp raw ign doc rest) fun ws => .ok ((n, PyVal.none) :: ws))
-      else if !raw && dropsF f then tFields Mp raw ign doc rest
       else
         bindE (bindE (enumPre f v) fun v' => if raw then .ok v' else tVal Mp true f v') fun w =>
         bindE (tFields Mp raw ign doc rest) fun ws => .ok ((n, w) :: ws)
@@ -346,7 +349,7 @@ def deserializeTrusted (Mp : MapEnv) (O : Oracles) (opts : DeserOpts) (cls : Fie
       | .raises => .error .valueErr
       | .no => deserialize O opts cls d
       | .lvl l =>
-        tInst (Mp c.name) c.name (classCrash fields) (fields.map (·.1)) d
+        tInst (Mp c.name) c.name (fields.map (·.1)) d
           (fun doc => tFields Mp (l == .flat) c.ignoreNone doc fields))
   | _ => .error (.other "not-a-class")
 
